@@ -267,6 +267,39 @@ Section Interleave.
       + inversion E; subst. eexists. split; [apply in_or_app; right; left; reflexivity|]. right. exact Hx.
       + exists l. split; [apply in_or_app; right; now right | exact Hx].
   Qed.
+  (* conversely: a tagged sequence whose projections are the senders' lists IS a merge
+     (this is what the correspondence checks on every recorded wire) *)
+  Lemma proj_interleave : forall out ls,
+    NoDup (map fst ls) ->
+    (forall e, In e out -> In (fst e) (map fst ls)) ->
+    (forall k l, In (k, l) ls -> proj k out = l) ->
+    interleave ls out.
+  Proof.
+    induction out as [|[k x] out IH]; intros ls Hnd Hk Hp.
+    - apply il_done. apply Forall_forall. intros [k l] Hin. cbn. symmetry. exact (Hp k l Hin).
+    - assert (Hin : In k (map fst ls)) by (apply (Hk (k, x)); now left).
+      apply in_map_iff in Hin. destruct Hin as ([k' l] & Hfst & Hin). cbn in Hfst. subst k'.
+      apply in_split in Hin. destruct Hin as (pre & post & ->).
+      assert (Hl : l = x :: proj k out).
+      { rewrite <- (Hp k l) by (apply in_or_app; right; now left).
+        unfold proj. cbn [filter fst]. rewrite keqb_refl. reflexivity. }
+      subst l. apply il_step. rewrite map_app in Hnd. cbn [map fst] in Hnd. apply IH.
+      + rewrite map_app. exact Hnd.
+      + intros e He. rewrite map_app. cbn [map fst]. specialize (Hk e (or_intror He)).
+        rewrite map_app in Hk. exact Hk.
+      + intros k2 l2 Hin2. apply in_app_or in Hin2. destruct Hin2 as [Hin2|[E|Hin2]].
+        * assert (k2 <> k).
+          { intros ->. apply NoDup_remove_2 in Hnd. apply Hnd. apply in_or_app. left.
+            change k with (fst (k, l2)). now apply in_map. }
+          rewrite <- (Hp k2 l2) by (apply in_or_app; now left).
+          unfold proj. cbn [filter fst]. rewrite keqb_neq by congruence. reflexivity.
+        * inversion E; subst. reflexivity.
+        * assert (k2 <> k).
+          { intros ->. apply NoDup_remove_2 in Hnd. apply Hnd. apply in_or_app. right.
+            change k with (fst (k, l2)). now apply in_map. }
+          rewrite <- (Hp k2 l2) by (apply in_or_app; right; now right).
+          unfold proj. cbn [filter fst]. rewrite keqb_neq by congruence. reflexivity.
+  Qed.
 End Interleave.
 
 Lemma ep_eqb_eq a b : ep_eqb a b = true <-> a = b.
